@@ -293,6 +293,32 @@ Section Proofs.
     - destruct (owns_any P r); [apply Hm | reflexivity].
   Qed.
 
+  (* a step only ever appends all_gather events: the creation sequence of a rank is the one of its constructor *)
+  Lemma creations_snoc_gather l ranks n : creations (l ++ [EvAllGather ranks n]) = creations l.
+  Proof. rewrite creations_app. cbn. apply app_nil_r. Qed.
+
+  Lemma creations_step c e r : r < world ->
+    creations (log (cget (ddp_step_tot P c e) r)) = creations (log (cget c r)).
+  Proof.
+    intros Hr. rewrite cget_ddp_step_tot by exact Hr. destruct (participates P r e); [|reflexivity].
+    unfold apply_phase, local_phase. cbn [log]. apply creations_snoc_gather.
+  Qed.
+
+  Lemma ddp_run_some_tot h c c' : ddp_run P h c = Some c' -> c' = fold_left (ddp_step_tot P) h c.
+  Proof.
+    revert c. induction h as [|e h IH]; intros c; cbn [ddp_run fold_left]; [intros H; injection H as <-; reflexivity|].
+    unfold ddp_step. destruct (can_step P e); [apply IH | discriminate].
+  Qed.
+
+  Lemma creations_run h v0 st0 b0 c r : r < world ->
+    ddp_run P h (init_cluster P v0 st0 b0) = Some c -> creations (log (cget c r)) = ctor_log P r.
+  Proof.
+    intros Hr Hrun. apply ddp_run_some_tot in Hrun. subst c.
+    assert (G : forall h c0, creations (log (cget (fold_left (ddp_step_tot P) h c0) r)) = creations (log (cget c0 r))).
+    { clear - Hr WF. induction h as [|e h IH]; intros c0; cbn [fold_left]; [reflexivity|]. rewrite IH. apply creations_step. exact Hr. }
+    rewrite G. unfold init_cluster, cget. rewrite nth_tab by exact Hr. cbn [log]. apply creations_ctor_log.
+  Qed.
+
   Theorem creation_logs_equal_eager : p_eager_meshes P = true -> forall r r', ctor_log P r = ctor_log P r'.
   Proof. intros H r r'. unfold ctor_log. rewrite H. reflexivity. Qed.
 
@@ -388,6 +414,18 @@ Section Final.
       gathers (log (cget c r)) = gathers (log (cget c r')).
   Proof.
     intros WF H Hrun. exact (collective_logs_equal_sync P WF h v0 st0 b0 c (sync_history P WF h H) Hrun).
+  Qed.
+
+  (* All ranks perform the same sequence of process-group creations - over the whole run, for every history (also a
+     starving one), every world and group size - when every rank creates the state meshes of all source ranks
+     (p_eager_meshes = true: the code since the repair of F7). *)
+  Theorem creation_logs_equal P h v0 st0 b0 c :
+    p_eager_meshes P = true -> ddp_run P h (init_cluster P v0 st0 b0) = Some c ->
+    forall r r', r < p_world P -> r' < p_world P -> creations (log (cget c r)) = creations (log (cget c r')).
+  Proof.
+    intros He Hrun r r' Hr Hr'.
+    rewrite (creations_run P h v0 st0 b0 c r Hr Hrun), (creations_run P h v0 st0 b0 c r' Hr' Hrun).
+    apply creation_logs_equal_eager. exact He.
   Qed.
 
   Theorem creation_logs_equal_guarded P :
